@@ -81,7 +81,10 @@ class UpdateMeta(Contract):
             n = {k: int(v) for k, v in n.items()}
             if not all(1 <= v <= 30 for v in n.values()):
                 continue
-            f = IOH.make_ioapi(P, nt=n['TSTEP'], nz=n['LAY'], ny=n['ROW'], nx=n['COL'])
+            try:
+                f = IOH.make_ioapi(P, nt=n['TSTEP'], nz=n['LAY'], ny=n['ROW'], nx=n['COL'])
+            except Exception as e:
+                return False, dict(raised=type(e).__name__, message=str(e)[:160], dims=n, where='building an IOAPI file (updatemeta is called on the way)')
             if c['stale']:
                 f.NLAYS, f.NROWS, f.NCOLS = 99, 98, 97
             else:
